@@ -43,6 +43,17 @@ def gen(rng, tier):
         for fl, fh in combos:
             lo = rng.randint(-50, 50)
             cases.append({"op": "log_encode", "input": [inst_with(rng, 2, (lo - fl, lo + w + fh)), 5], "stream": "width-frac"})
+    # end points just inside / outside an integer (the rounding is ceil / floor, no tolerance)
+    for _ in range(40 if tier == "quick" else 600):
+        lo = rng.randint(-20, 20)
+        w = rng.randint(0, 9)
+        dl = rng.choice([0.0, 2.0 ** -30, -(2.0 ** -30), 2.0 ** -21, -(2.0 ** -21), 2.0 ** -19])
+        du = rng.choice([0.0, 2.0 ** -30, -(2.0 ** -30), 2.0 ** -21, -(2.0 ** -21), -(2.0 ** -19)])
+        cases.append({"op": "log_encode", "input": [inst_with(rng, 2, (lo + dl, lo + w + du)), 5], "stream": "near-integer"})
+    # other encoded ids than 5 (0, large ids) among variables listed in any order
+    for t in (0, 1, 2 ** 32 + 7, 2 ** 62):
+        for w in (1, 2, 3, 6):
+            cases.append({"op": "log_encode", "input": [inst_with(rng, 2, (0.0, float(w)), target=t), t], "stream": "target-id"})
     n = 150 if tier == "quick" else 4000
     for _ in range(n):
         lo = rng.randint(-2 ** 20, 2 ** 20)
